@@ -92,6 +92,11 @@ def call(
     # main loop:
     out = numpy.zeros((), dtype=int)
     for exponent, coefficient in zip(poly.exponents, poly.coefficients):
+        if not numpy.any(coefficient):
+            # a retained all-zero term adds nothing whatever its exponents;
+            # raising the arguments to them anyway can turn an overflowing
+            # power into nan (inf*0).
+            exponent = numpy.zeros_like(exponent)
         term = ones
         for power, name in zip(exponent, poly.names):
             value = parameters[name]
